@@ -118,6 +118,18 @@ FACTS = {
             (["paths", "/items/{id}", "get", "parameters"], ("params", [("query", "page", True), ("query", "limit", False), ("header", "id", True), ("header", "trace", False)])),
         ],
     },
+    "contents-without-a-body": {
+        "files": {"main.oal": "res /things on post : <{ 'n str }> -> <status=201, headers={ 'Location! uri, 'X-Id num }> :: <status=4XX, { 'm str }>,\n  delete -> <headers={ 'ETag str }> `description: \"gone\"`,\n  get -> <status=301, headers={ 'Location! uri }> :: <status=200, headers={ 'ETag str }, { 'n str }>;\n"},
+        "facts": [
+            (["paths", "/things", "post", "responses", "201", "headers"], ("keys", ["Location", "X-Id"])),
+            (["paths", "/things", "post", "responses", "201", "headers", "Location", "required"], True),
+            (["paths", "/things", "delete", "responses"], ("keys", ["204"])),
+            (["paths", "/things", "delete", "responses", "204", "headers"], ("keys", ["ETag"])),
+            (["paths", "/things", "delete", "responses", "204", "description"], "gone"),
+            (["paths", "/things", "get", "responses", "301", "headers"], ("keys", ["Location"])),
+            (["paths", "/things", "get", "responses", "200", "headers"], ("keys", ["ETag"])),
+        ],
+    },
     "annotations-in-place": {
         "files": {"main.oal":
                   "let n = int `minimum: 1, maximum: 9, example: 5`;\nlet s = str `pattern: \"[a-z]+\", minLength: 2, maxLength: 8, format: \"slug\", enum: [ab, cd]`;\n"
@@ -417,6 +429,10 @@ def check():
                 if v != "unsat":
                     fail("xfer_responses: a content without a status replaces the default response recorded so far (Option::insert)", "default-response-overwritten")
         # the content lands under its media type with its own schema
+        # ... every content also brings its headers and its description: whether or not it has a body
+        ch = [e for e in calls if e[1] == "Builder::content_headers"]
+        structural("xfer_responses: every content of the iteration - with or without a body - hands its headers to the response", bool(ch) and
+                   any(t == ms.proj(item, ("f", 1), E) or t == ("deref", ms.proj(item, ("f", 1), E)) for t in ms.subterms(ch[0][2][1])))
         mi = [e for e in calls if e[1] == "IndexMap::insert"]
         if mi:
             sc = [e for e in calls if e[1] == "Builder::schema"]
